@@ -57,6 +57,84 @@ def layout_variants(args, kwargs):
     return out
 
 
+def _leaf_arrays(x, out):
+    if isinstance(x, np.ndarray):
+        out.append(x)
+    elif isinstance(x, (tuple, list)):
+        for v in x:
+            _leaf_arrays(v, out)
+    elif isinstance(x, dict):
+        for v in x.values():
+            _leaf_arrays(v, out)
+    return out
+
+
+def _mix(used, pristine):
+    """Arrays from `used` (same objects), everything else from `pristine` (same structure)."""
+    if isinstance(used, np.ndarray):
+        return used
+    if isinstance(used, tuple) and isinstance(pristine, tuple) and len(used) == len(pristine):
+        return tuple(_mix(u, p) for u, p in zip(used, pristine))
+    if isinstance(used, list) and isinstance(pristine, list) and len(used) == len(pristine):
+        return [_mix(u, p) for u, p in zip(used, pristine)]
+    if isinstance(used, dict) and isinstance(pristine, dict) and used.keys() == pristine.keys():
+        return {k: _mix(used[k], pristine[k]) for k in used}
+    return pristine
+
+
+def history_variants(K, pristine, tol):
+    """Two call HISTORIES on top of a sample (a contract speaks about one call, whatever happened before):
+    (1) call, scribble over the arrays the call RETURNED, call again on a pristine copy of the inputs - a result that is
+        aliased with state kept between calls (a cache) comes back scribbled;
+    (2) call, change the VALUES of the same input array objects in place (all rolled by one position, so every
+        precondition on the multiset of values still holds), call again on the same objects - anything remembered by
+        object identity is now stale.
+    Yields (label, outcome of the LAST call)."""
+    import copy
+
+    if pristine is None:
+        return
+    a0, k0 = pristine
+    # (1)
+    try:
+        a1, k1 = copy.deepcopy(a0), copy.deepcopy(k0)
+        first = C.check_call(K, a1, k1, tol=tol)
+        if first.kind == "return":
+            res_arrays = [x for x in _leaf_arrays(first.result, []) if x.flags.writeable and x.size]
+            in_ids = {id(x) for x in _leaf_arrays((a1, k1), [])}
+            scribbled = False
+            for x in res_arrays:
+                if id(x) in in_ids or any(np.shares_memory(x, y) for y in _leaf_arrays((a1, k1), [])):
+                    continue  # results that ARE (views of) this call's inputs belong to the caller anyway
+                if x.dtype.kind == "f":
+                    x *= -1.5
+                    x += 7.25
+                    scribbled = True
+                elif x.dtype.kind in "iu":
+                    x += 1
+                    scribbled = True
+            if scribbled:
+                a2, k2 = copy.deepcopy(a0), copy.deepcopy(k0)
+                yield "after scribbling over the arrays returned by an identical earlier call", C.check_call(K, a2, k2, tol=tol)
+    except Exception:
+        pass
+    # (2)
+    try:
+        a1, k1 = copy.deepcopy(a0), copy.deepcopy(k0)
+        first = C.check_call(K, a1, k1, tol=tol)
+        arrays = [x for x in _leaf_arrays((a1, k1), []) if x.flags.writeable and x.size > 1 and x.dtype.kind == "f"]
+        sizes = {x.size for x in arrays}
+        if first.kind == "return" and arrays and len(sizes) == 1:
+            for x in arrays:
+                flat = x.ravel().copy()
+                x[...] = np.roll(flat, 1).reshape(x.shape)
+            # the same ARRAY objects, but every other argument (estimators carry fitted state by design) pristine again
+            a2, k2 = _mix(a1, copy.deepcopy(a0)), _mix(k1, copy.deepcopy(k0))
+            yield "after changing the values of the same input array objects in place", C.check_call(K, a2, k2, tol=tol)
+    except Exception:
+        pass
+
+
 def run_samplers(keys, tier, seed, limit=None):
     from .contract import REGISTRY
 
@@ -88,6 +166,14 @@ def run_samplers(keys, tier, seed, limit=None):
             items = items + extra
         for item in items:
             args, kwargs = item[0], item[1]
+            pristine = None
+            if getattr(K, "history_variants", True) and n < (12 if tier == "thorough" else 5):
+                try:
+                    import copy
+
+                    pristine = copy.deepcopy((args, kwargs))  # before the call: estimators among the arguments get fitted
+                except Exception:
+                    pristine = None
             try:
                 res = C.check_call(K, args, kwargs, tol=getattr(K, "tol", None))
             except TypeError as e:
@@ -113,6 +199,14 @@ def run_samplers(keys, tier, seed, limit=None):
                             "outcome": res.kind + ((": %r" % (res.exc,)) if res.exc is not None else ""),
                         }
                     )
+            if getattr(K, "history_variants", True) and n <= (12 if tier == "thorough" else 5) and res.kind == "return" and not res.failures:
+                for label, hres in history_variants(K, pristine, getattr(K, "tol", None)):
+                    if hres.kind == "skipped":
+                        continue
+                    evaluations += 1
+                    for clause, detail in hres.failures:
+                        if len(failures) < 50:
+                            failures.append({"target": key, "clause": clause, "detail": "[%s] %s" % (label, detail), "inputs": C.describe({"args": args, "kwargs": kwargs}), "outcome": hres.kind + ((": %r" % (hres.exc,)) if hres.exc is not None else "")})
             if limit and n >= limit:
                 break
         if not isinstance(per.get(key), str):
